@@ -294,15 +294,19 @@ def execute(ctx, case):
                     # The library computes replicates and estimate with the same formula, so mathematically equal values are
                     # bitwise equal there; recomputed by counting they may differ by an ulp, which would flip the tie count
                     # in the bias correction (fraction of replicates <= estimate). Snap such replicates onto the estimate.
+                    # Error rates are computed by the library as 1 - x, so the rounding error is an ulp of 1, i.e. several
+                    # ulps of a small rate; mathematically distinct values of these rational metrics differ by > 1e-6 relative
+                    # for the frame sizes driven here (<= 400 rows).
                     if math.isfinite(est):
-                        eps = 8 * math.ulp(max(abs(est), 1e-300))
+                        eps = max(8 * math.ulp(max(abs(est), 1e-300)), 1e-11 * abs(est))
                         col = [est if (v == v and abs(v - est) <= eps) else v for v in col]
                     lo_e, up_e = R.bootstrap_ci(col, est, case["alpha"], case["bm"])
                     fin = [v for v in col if v == v]
                     tol = 1e-9 * max(1.0, max((abs(v) for v in fin), default=1.0)) + 4e-14 * len(col) * ((max(fin) - min(fin)) if fin else 0.0)
                     if not (_close(lo_e, float(lower[gi, ti]), tol) and _close(up_e, float(upper[gi, ti]), tol)):
                         this_ok = False
-                        worst = (got_labels[gi], thr_list[ti], [float(lower[gi, ti]), float(upper[gi, ti])], [lo_e, up_e], est)
+                        if worst is None:  # report the mismatch of the first (documented) reading
+                            worst = (got_labels[gi], thr_list[ti], [float(lower[gi, ti]), float(upper[gi, ti])], [lo_e, up_e], est)
                         break
                 if not this_ok:
                     break
